@@ -22,6 +22,10 @@ enum Act {
     Rotate,
     Hb,
     Cmd,
+    Settle,      // wait for quiescence before going on
+    SelAll,
+    TogAll,
+    DeselAll,
 }
 
 #[derive(Clone, Debug)]
@@ -36,12 +40,39 @@ struct Sess {
     header_lines: usize,
     no_clear_if_empty: bool,
     delays: Vec<(&'static str, usize, u64)>,
+    set_ops: bool,          // C10 sessions: the accepted output is the selected set, not the list
 }
 
 const WORDS: [&str; 12] = ["ab", "ba", "abc", "cab", "bca", "aa", "bb", "c", "acb", "xyz", "axb", "b"];
 const POINTS: [&str; 16] = ["hb.stopped", "hb.done", "hb.harvest", "hb.consumed", "hb.end", "rm.done", "rm.append", "rm.spawn", "m.load", "m.take", "m.publish", "m.notify", "m.stop", "r.start", "r.push", "s1.read"];
 
+fn gen_c10(r: &mut Rng) -> Sess {
+    let n_items = 3 + r.below(28) as usize;
+    let items: Vec<String> = (0..n_items).map(|i| format!("{}{}", r.pick(&WORDS), i)).collect();
+    let mut timeline = Vec::new();
+    let mut fed = 0;
+    while fed < n_items {
+        let c = 1 + r.below(((n_items - fed) as u64).min(12)) as usize;
+        timeline.push((*r.pick(&[0u64, 1, 10, 40]), Act::Feed(c)));
+        fed += c;
+    }
+    timeline.push((0, Act::Eof));
+    for _ in 0..(2 + r.below(5)) {
+        if r.chance(2, 3) {
+            timeline.push((*r.pick(&[0u64, 5, 30]), match r.below(6) { 0..=2 => Act::Add(*r.pick(&['a', 'b', 'c'])), 3..=4 => Act::Back, _ => Act::Rotate }));
+        }
+        timeline.push((0, Act::Settle));
+        timeline.push((0, match r.below(6) { 0..=2 => Act::TogAll, 3..=4 => Act::SelAll, _ => Act::DeselAll }));
+    }
+    timeline.push((0, Act::Settle));
+    let mut delays = Vec::new();
+    for _ in 0..r.below(3) { delays.push((*r.pick(&POINTS), 1 + r.below(4) as usize, *r.pick(&[5u64, 30, 120]))); }
+    Sess { items, timeline, init_query: r.pick(&["", "a", "b", "ab"]).to_string(), exact: r.chance(1, 2), select1: false, exit0: false, sync: false,
+           header_lines: if r.chance(1, 4) { 1 + r.below(2) as usize } else { 0 }, no_clear_if_empty: false, delays, set_ops: true }
+}
+
 fn gen(r: &mut Rng, focus: &str) -> Sess {
+    if focus == "C10" { return gen_c10(r); }
     let c14 = focus == "C14";
     let n_runs = if focus == "C01" { match r.below(20) { 0..=13 => 1, 14..=18 => 2, _ => 3 } } else { 1 };
     let mut items: Vec<String> = Vec::new();
@@ -105,6 +136,7 @@ fn gen(r: &mut Rng, focus: &str) -> Sess {
         header_lines: if r.chance(1, 4) || focus == "C15" && r.chance(1, 2) { 1 + r.below(3) as usize } else { 0 },
         no_clear_if_empty: r.chance(1, 8),
         delays,
+        set_ops: false,
     }
 }
 
@@ -127,7 +159,7 @@ fn leak(s: &str) -> &'static str {
 
 /// `items=ab0,cab1;tl=0:F2,5:E,10:+a,0:-,0:R,0:H;q=ab;exact=1;s1=1;e0=0;sync=0;hl=0;ncie=0;delays=m.take:1:60`
 fn parse_spec(spec: &str) -> Sess {
-    let mut s = Sess { items: vec![], timeline: vec![], init_query: String::new(), exact: false, select1: false, exit0: false, sync: false, header_lines: 0, no_clear_if_empty: false, delays: vec![] };
+    let mut s = Sess { items: vec![], timeline: vec![], init_query: String::new(), exact: false, select1: false, exit0: false, sync: false, header_lines: 0, no_clear_if_empty: false, delays: vec![], set_ops: false };
     for kv in spec.split(';') {
         let (k, v) = kv.split_once('=').unwrap_or((kv, ""));
         match k {
@@ -142,6 +174,10 @@ fn parse_spec(spec: &str) -> Sess {
                         "-" => Act::Back,
                         "R" => Act::Rotate,
                         "C" => Act::Cmd,
+                        "S" => Act::Settle,
+                        "A" => Act::SelAll,
+                        "T" => Act::TogAll,
+                        "D" => Act::DeselAll,
                         _ => Act::Hb,
                     };
                     s.timeline.push((d.parse().unwrap(), act));
@@ -154,6 +190,7 @@ fn parse_spec(spec: &str) -> Sess {
             "sync" => s.sync = v == "1",
             "hl" => s.header_lines = v.parse().unwrap(),
             "ncie" => s.no_clear_if_empty = v == "1",
+            "setops" => s.set_ops = v == "1",
             "delays" => {
                 for e in v.split(',').filter(|x| !x.is_empty()) {
                     let p: Vec<&str> = e.split(':').collect();
@@ -168,10 +205,10 @@ fn parse_spec(spec: &str) -> Sess {
 
 fn spec_of(s: &Sess) -> String {
     let tl: Vec<String> = s.timeline.iter().map(|(d, a)| format!("{}:{}", d, match a {
-        Act::Feed(k) => format!("F{}", k), Act::Eof => "E".into(), Act::Add(c) => format!("+{}", c), Act::Back => "-".into(), Act::Rotate => "R".into(), Act::Hb => "H".into(), Act::Cmd => "C".into() })).collect();
+        Act::Feed(k) => format!("F{}", k), Act::Eof => "E".into(), Act::Add(c) => format!("+{}", c), Act::Back => "-".into(), Act::Rotate => "R".into(), Act::Hb => "H".into(), Act::Cmd => "C".into(), Act::Settle => "S".into(), Act::SelAll => "A".into(), Act::TogAll => "T".into(), Act::DeselAll => "D".into() })).collect();
     let dl: Vec<String> = s.delays.iter().map(|(n, k, ms)| format!("{}:{}:{}", n, k, ms)).collect();
-    format!("items={};tl={};q={};exact={};s1={};e0={};sync={};hl={};ncie={};delays={}", s.items.join(","), tl.join(","), s.init_query,
-        s.exact as u8, s.select1 as u8, s.exit0 as u8, s.sync as u8, s.header_lines, s.no_clear_if_empty as u8, dl.join(","))
+    format!("items={};tl={};q={};exact={};s1={};e0={};sync={};hl={};ncie={};setops={};delays={}", s.items.join(","), tl.join(","), s.init_query,
+        s.exact as u8, s.select1 as u8, s.exit0 as u8, s.sync as u8, s.header_lines, s.no_clear_if_empty as u8, s.set_ops as u8, dl.join(","))
 }
 
 fn subseq(q: &str, s: &str) -> bool {
@@ -270,6 +307,7 @@ fn run(s: &Sess) -> Outcome {
     let mut query = s.init_query.clone();
     let mut regex = false;
     let mut next = 0;
+    let mut sent_nonhb = 0usize;
     let mut run_no = 0;
     let mut run_start = 0;
     let mut cur: Option<SkimItemSender> = sender_of(0);
@@ -307,22 +345,37 @@ fn run(s: &Sess) -> Outcome {
             Act::Add(c) => {
                 query.push(*c);
                 let _ = tx.send((Key::Null, Event::EvActAddChar(*c)));
+                sent_nonhb += 1;
             }
             Act::Back => {
                 query.pop();
                 let _ = tx.send((Key::Null, Event::EvActBackwardDeleteChar));
+                sent_nonhb += 1;
             }
             Act::Rotate => {
                 regex = !regex;
                 let _ = tx.send((Key::Null, Event::EvActRotateMode));
+                sent_nonhb += 1;
             }
             Act::Hb => {
                 let _ = tx.send((Key::Null, Event::EvHeartBeat));
             }
+            Act::Settle => {
+                // every event sent so far has been picked up by the loop, then quiescence
+                let t1 = Instant::now();
+                while V::trace_snapshot().iter().filter(|e| e.1 == "ev" && e.2 == 0).count() < sent_nonhb && t1.elapsed() < Duration::from_millis(4000) {
+                    std::thread::sleep(Duration::from_millis(2));
+                }
+                let _ = wait_quiescent(V::trace_len(), Duration::from_millis(6000));
+            }
+            Act::SelAll => { let _ = tx.send((Key::Null, Event::EvActSelectAll)); sent_nonhb += 1; }
+            Act::TogAll => { let _ = tx.send((Key::Null, Event::EvActToggleAll)); sent_nonhb += 1; }
+            Act::DeselAll => { let _ = tx.send((Key::Null, Event::EvActDeselectAll)); sent_nonhb += 1; }
             Act::Cmd => {
                 cur.take();
                 drop_run(run_no);
                 let _ = tx.send((Key::Null, Event::EvActRefreshCmd));
+                sent_nonhb += 1;
                 run_no += 1;
                 run_start = next;
                 cur = sender_of(run_no);
@@ -356,7 +409,7 @@ fn run(s: &Sess) -> Outcome {
         if !wait_quiescent(mark.saturating_sub(1), Duration::from_millis(6000)) {
             stalled = true;
         }
-        let _ = tx.send((Key::Null, Event::EvActSelectAll));
+        if !s.set_ops { let _ = tx.send((Key::Null, Event::EvActSelectAll)); }
         let _ = tx.send((Key::Null, Event::EvActAccept(None)));
     }
     let out = th.join().ok().flatten();
@@ -626,7 +679,7 @@ fn session_case(s: &Sess, o: &Outcome) -> Option<String> {
         bi += best_p * best_k;
     }
     let steps = coq::list(segs.iter().map(|(n, b)| coq::pair(coq::n(*n), coq::list(b.iter().map(|(l, o)| coq::pair(l.clone(), coq::ns(o.iter().cloned())))))));
-    let final_ids: Option<Vec<u64>> = if o.auto || o.stalled { None } else {
+    let final_ids: Option<Vec<u64>> = if o.auto || o.stalled || s.set_ops { None } else {
         let mut ids = Vec::new();
         for t in &o.output {
             match s.items.iter().position(|x| x == t) { Some(k) => ids.push(k as u64), None => ids.push(9_999_999) }
@@ -772,7 +825,31 @@ fn run_case(seed: u64, id: u64, focus: &str, spec: Option<&String>, out: &mut Ve
     out.push(format!("{}\tdistinct\t{}", id, esc(&input)));
     let exp = expected(&s, o.run_start, o.fed, &o.final_query, o.regex);
     let mut bad: Option<String> = None;
-    if s.select1 || s.exit0 {
+    if s.set_ops {
+        // the selected set by set algebra over the match sets at the time of each operation
+        let mut sel: std::collections::BTreeSet<usize> = std::collections::BTreeSet::new();
+        let (mut q, mut rx) = (s.init_query.clone(), false);
+        for (_, a) in &s.timeline {
+            let listed: Vec<usize> = (s.header_lines..s.items.len()).filter(|k| matches_ref(&s, &s.items[*k], &q, rx)).collect();
+            match a {
+                Act::Add(c) => q.push(*c),
+                Act::Back => { q.pop(); }
+                Act::Rotate => rx = !rx,
+                Act::SelAll => { for k in &listed { sel.insert(*k); } }
+                Act::TogAll => { for k in &listed { if !sel.remove(k) { sel.insert(*k); } } }
+                Act::DeselAll => sel.clear(),
+                _ => {}
+            }
+        }
+        out.push(format!("{}\tdist\tselected-at-end={}", id, sel.len().min(8)));
+        if o.stalled { bad = Some("no quiescent state within 6 s of the last input".to_string()); }
+        else if !sel.is_empty() {
+            let want: Vec<String> = sel.iter().map(|k| s.items[*k].clone()).collect();
+            if o.output != want { bad = Some(format!("after the select-all / toggle-all / deselect-all history and re-filtering the accepted items are {:?}, the selected set is {:?}", o.output, want)); }
+        } else if o.output.len() > 1 { bad = Some(format!("nothing is selected but {:?} was accepted", o.output)); }
+    }
+    if s.set_ops {
+    } else if s.select1 || s.exit0 {
         let n = exp.len();
         if s.select1 && n == 1 {
             if !(o.auto && !o.is_abort) { bad = Some(format!("--select-1 with exactly one match {:?}: the session did not accept on its own (auto={} abort={})", exp, o.auto, o.is_abort)); }
@@ -783,7 +860,7 @@ fn run_case(seed: u64, id: u64, focus: &str, spec: Option<&String>, out: &mut Ve
             bad = Some(format!("{} item(s) match {:?} but the session ended on its own ({}): decided on a partial result", n, o.final_query, if o.is_abort { "exit-0" } else { "select-1" }));
         }
     }
-    if bad.is_none() && !o.auto {
+    if bad.is_none() && !o.auto && !s.set_ops {
         if o.stalled { bad = Some("no quiescent state within 6 s of the last input (heartbeats stopped or never settle)".to_string()); }
         else {
             let stale_ok = s.no_clear_if_empty && exp.is_empty() && o.run_start > 0;
